@@ -524,7 +524,10 @@ impl VariableSet {
         };
 
         // From which context should we unset?
-        let index = Self::index_of_context(scope, &self.contexts);
+        let context_index = Self::index_of_context(scope, &self.contexts);
+        // The stack is sorted by context index, so the variables to unset are
+        // the ones from this position to the top of the stack.
+        let index = stack.partition_point(|vic| vic.context_index < context_index);
 
         // Return an error if the variable is read-only.
         // Unfortunately, this code fragment does not compile because the
